@@ -583,6 +583,85 @@ struct Ctx {
     refdelta: refsnap::Delta,
 }
 
+// ---------------------------------------------------------------- the Gallina model of the reference (Model/SnapRef.v)
+// `refbuild` / `refdelta` cases: what the REAL C++ produced is recorded, the driver prints what the
+// extracted model (ref_builder_ints / ref_create_delta) produces for the same items in the same order.
+
+/// the reference builder on the items in the given order (no sorting, duplicates allowed)
+fn ref_build_in_order(items: &[ItemV]) -> refsnap::RawSnap {
+    let mut b = refsnap::RawBuilder::new();
+    for (t, i, d) in items {
+        b.add_item(*t, *i, d).unwrap();
+    }
+    b.finish()
+}
+fn ref_snap_ints(s: &mut refsnap::RawSnap) -> Option<Vec<i32>> {
+    let mut out = vec![0i32; 16384];
+    let mut scratch = vec![];
+    s.write_to_ints(&mut scratch, &mut out).map(|w| w.to_vec()).ok()
+}
+/// snapshotbuilder_add_item takes these without abort(): type <= MAX_TYPE, size <= MAX_SIZE - 16
+fn ref_builder_safe(items: &[ItemV]) -> bool {
+    items.iter().all(|x| x.0 <= 0x7fff && x.2.len() <= 16380)
+}
+/// the items as they lie in a reference snapshot: (key, index of the first data int, data length)
+fn ref_layout(ints: &[i32]) -> Vec<(i32, usize, usize)> {
+    let n = ints[1] as usize;
+    (0..n)
+        .map(|i| {
+            let off = ints[2 + i] as usize / 4;
+            let end = if i + 1 < n { ints[2 + i + 1] as usize / 4 } else { ints[0] as usize / 4 };
+            (ints[2 + n + off], 2 + n + off + 1, end - off - 1)
+        })
+        .collect()
+}
+/// CreateDelta stays inside initialised memory: the delta fits int32_t[16384], and an item of `to`
+/// whose key occurs in `from` with fewer ints (the K09 class: DiffItem reads the NEW length from the
+/// OLD item) still reads inside the written part of `from`
+fn ref_delta_safe(fa: &[i32], fb: &[i32]) -> bool {
+    let (la, lb) = (ref_layout(fa), ref_layout(fb));
+    let bound: usize = 3 + la.len() + lb.iter().map(|x| 3 + x.2).sum::<usize>();
+    bound <= 16384 && lb.iter().all(|(k, _, n)| la.iter().all(|(k2, p, _)| k2 != k || p + n <= fa.len()))
+}
+fn case_refbuild(o: &mut Out, items: &[ItemV]) {
+    if !ref_builder_safe(items) {
+        return;
+    }
+    let mut s = ref_build_in_order(items);
+    let res = match ref_snap_ints(&mut s) {
+        Some(v) => format!("ok:{}", ints_txt(&v)),
+        None => "cap".to_string(),
+    };
+    let kept = res.split(',').nth(1).map(|x| x.to_string()).unwrap_or_default();
+    let sig = format!("refbuild n={} kept={} sorted={}", items.len().min(3), if kept == items.len().to_string() { "all" } else { "dropped" },
+        items.windows(2).all(|w| (key_of(w[0].0, w[0].1) as u32) < (key_of(w[1].0, w[1].1) as u32)));
+    o.case(&format!("refbuild {}", items_txt(items)), &format!("refbuild={}", res), &sig);
+}
+fn case_refdelta(o: &mut Out, cx: &mut Ctx, a: &[ItemV], b: &[ItemV]) -> Option<Vec<i32>> {
+    if !ref_builder_safe(a) || !ref_builder_safe(b) {
+        return None;
+    }
+    let (mut fa, mut fb) = (ref_build_in_order(a), ref_build_in_order(b));
+    let (ia, ib) = (ref_snap_ints(&mut fa)?, ref_snap_ints(&mut fb)?);
+    if !ref_delta_safe(&ia, &ib) {
+        o.count("refdelta skipped (would read or write outside initialised memory)");
+        return None;
+    }
+    let mut out = vec![0i32; 16384];
+    let rd = cx.refdelta.create_raw_and_write_to_ints(&fa, &fb, ref_obj_size, &mut out).map(|w| w.to_vec());
+    let res = match &rd {
+        Ok(v) => format!("ok:{}", ints_txt(v)),
+        Err(_) => "cap".to_string(),
+    };
+    let sig = match &rd {
+        Ok(v) if v.is_empty() => "refdelta empty".to_string(),
+        Ok(v) => format!("refdelta del={} upd={} of {}", v[0].min(3), v[1].min(3), b.len().min(4)),
+        Err(_) => "refdelta cap".to_string(),
+    };
+    o.case(&format!("refdelta {} {} {}", items_txt(a), items_txt(b), table_txt(&ref_table())), &format!("refdelta={}", res), &sig);
+    rd.ok()
+}
+
 // ---------------------------------------------------------------- C09
 /// the statement of C09 on the real code, for one pair
 fn oracle_c09(o: &mut Out, cx: &mut Ctx, id: &str, a: &[ItemV], b: &[ItemV], tbl: &Table, with_ref: bool) {
@@ -669,6 +748,140 @@ fn oracle_c09(o: &mut Out, cx: &mut Ctx, id: &str, a: &[ItemV], b: &[ItemV], tbl
             }
         }
         o.count("reference pairs");
+        // the same pair (items in key order, as ref_build hands them over) for the model of the reference
+        let sorted = |v: &[ItemV]| {
+            let mut s = v.to_vec();
+            s.sort_by_key(|x| key_of(x.0, x.1) as u32);
+            s
+        };
+        case_refbuild(o, &sorted(b));
+        if nd <= 16000 {
+            case_refdelta(o, cx, &sorted(a), &sorted(b));
+        }
+    }
+}
+
+/// inputs for the model of the reference beyond the pairs of the C09 oracle: any item order, duplicate
+/// keys, size changes (K09), sizes that break the table, overflowing hash buckets, dropped items
+fn gen_ref_model(o: &mut Out, cx: &mut Ctx, r: &mut Rng, th: bool) {
+    // ---- one key, every pair of states (absent or 0..2 values), two keys of the reference's domain
+    let states: Vec<Option<Vec<i32>>> = std::iter::once(None).chain(all_data(2, &VALS).into_iter().map(Some)).collect();
+    for k in [(5u16, 1u16), (0x7fffu16, 0xffffu16)] {
+        for sa in &states {
+            for sb in &states {
+                // a bystander behind the key, so that a longer new item reads initialised memory
+                let mut a: Vec<ItemV> = sa.iter().map(|d| (k.0, k.1, d.clone())).collect();
+                a.push((0x7fff, 0xfffe, vec![7, -7, 0]));
+                let b: Vec<ItemV> = sb.iter().map(|d| (k.0, k.1, d.clone())).collect();
+                case_refdelta(o, cx, &a, &b);
+            }
+        }
+    }
+    o.exhaustive("reference model: one key (absent, or 0..2 values from {0,1,-1,MIN,MAX}) next to a bystander, every pair of states");
+    // ---- random small snapshots in any order
+    let uni: Vec<(u16, u16)> = vec![(1, 0), (1, 1), (2, 0x8000), (5, 0xffff), (7, 7), (63, 2), (64, 2), (0x3fff, 7), (0x4000, 0), (0x7fff, 0xffff), (0x7fff, 0), (0, 0x4000), (0, 0), (9, 3)];
+    for n in 0..(if th { 30_000 } else { 4_000 }) {
+        let side = |r: &mut Rng, other: Option<&Vec<ItemV>>| -> Vec<ItemV> {
+            let mut v: Vec<ItemV> = vec![];
+            let cnt = r.below(6) as usize;
+            for _ in 0..cnt {
+                let k = *r.pick(&uni);
+                if v.iter().any(|x| (x.0, x.1) == k) && !r.chance(1, 10) {
+                    continue; // duplicate keys now and then: the reference builder does not look
+                }
+                let len = match ref_obj_size(k.0) {
+                    Some(s) if !r.chance(1, 10) => s as usize,
+                    _ => match other.and_then(|o| o.iter().find(|x| (x.0, x.1) == k)) {
+                        Some(x) if !r.chance(1, 6) => x.2.len(),
+                        _ => r.below(5) as usize,
+                    },
+                };
+                v.push((k.0, k.1, gen_data(r, len)));
+            }
+            v
+        };
+        let a = side(r, None);
+        let mut b = if r.chance(1, 4) { a.clone() } else { side(r, Some(&a)) };
+        if r.chance(1, 3) {
+            // keep most of A, change a little
+            b = a.clone();
+            for x in b.iter_mut() {
+                if r.chance(1, 3) && !x.2.is_empty() {
+                    let i = r.below(x.2.len() as u64) as usize;
+                    x.2[i] = x.2[i].wrapping_add(*r.pick(&VALS));
+                }
+            }
+            if r.chance(1, 2) && !b.is_empty() {
+                let i = r.below(b.len() as u64) as usize;
+                b.remove(i);
+            }
+            if r.chance(1, 2) {
+                b.reverse();
+            }
+        }
+        if n % 4 == 0 {
+            case_refbuild(o, &b);
+        }
+        case_refdelta(o, cx, &a, &b);
+    }
+    // ---- overflowing hash buckets: more than 64 keys with one CalcHashId
+    let mut same: Vec<(u16, u16)> = vec![];
+    let want = ref_hash(key_of(3, 0));
+    'search: for t in [3u16, 70, 0x1234, 0x7fff] {
+        for id in 0..=0xffffu16 {
+            if ref_hash(key_of(t, id)) == want {
+                same.push((t, id));
+                if same.len() >= 80 {
+                    break 'search;
+                }
+            }
+        }
+    }
+    for round in 0..(if th { 40 } else { 8 }) {
+        let na = 60 + r.below(21) as usize;
+        let mut a: Vec<ItemV> = same[..na].iter().map(|k| (k.0, k.1, gen_data(r, ref_obj_size(k.0).unwrap_or(2) as usize))).collect();
+        let mut b = a.clone();
+        for x in b.iter_mut() {
+            if r.chance(1, 4) {
+                x.2[0] = x.2[0].wrapping_add(1);
+            }
+        }
+        if round % 2 == 1 {
+            b.reverse();
+        }
+        if round % 3 == 2 {
+            let cut = r.below(b.len() as u64) as usize;
+            b.truncate(cut.max(1));
+            a.rotate_left(7);
+        }
+        case_refdelta(o, cx, &a, &b);
+        case_refdelta(o, cx, &b, &a);
+        o.count("refdelta with an overflowing hash bucket");
+    }
+    // ---- the builder's limits: 1024 / 1025 items, the last byte, everything after a dropped item
+    let many = |n: usize, len: usize| -> Vec<ItemV> { (0..n).map(|i| ((i % 100) as u16, (i / 100) as u16 + 1, vec![i as i32; len])).collect() };
+    case_refbuild(o, &many(1024, 0));
+    case_refbuild(o, &many(1025, 0));
+    case_refbuild(o, &many(1030, 1));
+    case_refbuild(o, &[]);
+    case_refbuild(o, &[(0, 0, vec![])]);
+    for room in [16380usize, 16379, 16378] {
+        // header 2 + one offset + one key + data = 16384 ints when data = 16380
+        case_refbuild(o, &[(9, 9, vec![1; room])]);
+        case_refbuild(o, &[(9, 9, vec![1; room - 2]), (9, 8, vec![])]);
+        case_refbuild(o, &[(9, 9, vec![1; room - 1]), (9, 8, vec![]), (9, 7, vec![])]);
+        case_refbuild(o, &[(9, 9, vec![1; room]), (9, 8, vec![]), (1, 1, vec![5])]);
+    }
+    for _ in 0..(if th { 12 } else { 3 }) {
+        let t = ref_table();
+        let fill = r.chance(1, 2);
+        let a = gen_big(r, &t, 1024, true, fill);
+        let mut b = mutate(r, &t, &a, true);
+        let k = r.below(b.len().max(1) as u64) as usize;
+        let k = k.min(b.len());
+        b.rotate_left(k);
+        case_refbuild(o, &a);
+        case_refdelta(o, cx, &a, &b);
     }
 }
 
@@ -859,6 +1072,8 @@ fn gen_c09(o: &mut Out, cx: &mut Ctx, r: &mut Rng, th: bool) {
             do_pair(o, cx, &a, &[], &t, light, use_ref);
         }
     }
+    // ---- the Gallina model of the reference against the real C++
+    gen_ref_model(o, cx, r, th);
 }
 
 /// a snapshot that the builder accepts, possibly filling one of the limits exactly
@@ -1936,7 +2151,7 @@ fn main() {
     let a = Args::parse();
     let mode = a.extra.first().cloned().unwrap_or_else(|| "c09".into());
     let rule = match mode.as_str() {
-        "c09" => "pairs of raw snapshots (A,B): one key exhaustively (157x157 states), two keys straddling 0x8000 (thorough), random 1..4 keys from a 13-key universe, random pairs up to 1024 items / 64 KiB; per pair: create, dump, apply, table/explicit-size wire forms in ints and bytes, read back, apply again, the DDNet reference (delta + serialisation) where it can represent the pair. distinct = distinct sequences of command outcomes (ok/err kind/warnings/panic)",
+        "c09" => "pairs of raw snapshots (A,B): one key exhaustively (157x157 states), two keys straddling 0x8000 (thorough), random 1..4 keys from a 13-key universe, random pairs up to 1024 items / 64 KiB; per pair: create, dump, apply, table/explicit-size wire forms in ints and bytes, read back, apply again, the DDNet reference (delta + serialisation) where it can represent the pair; refbuild / refdelta: the real C++ CSnapshotBuilder / CSnapshotDelta::CreateDelta against their Gallina model (Model/SnapRef.v) on those pairs and on items in any order, duplicate keys, size changes, overflowing hash buckets, the builder's limits. distinct = distinct sequences of command outcomes (ok/err kind/warnings/panic)",
         "c10" => "builder op lists (exhaustive up to length 3 over 6 ops; random with 0..40 UUID types interleaved with ordinals; up to the item and size limits): build, items, crc, write ints/bytes, read back, lookups, after a delta, recycle + add a known and a fresh UUID type. distinct = distinct sequences of command outcomes",
         _ => "hostile snapshot and delta inputs (valid bases, every single-field corruption x 16 boundary values and neighbours, truncation at every int and byte position, duplicate keys, registry items of wrong length, type numbers across the 16-bit range, registry id chains, oversized counts, random words and bytes), each followed by every follow-up operation on what was accepted; every hostile reader call and every read_with_delta of an accepted delta on an accepted snapshot is metered on the real allocator and held against the high-water mark of the cost-instrumented model (Model/SnapCost.v, run by the driver in cost mode). distinct = distinct sequences of command outcomes",
     };
